@@ -109,7 +109,14 @@ class QTensorLinear(torch.autograd.Function):
                 bits=4,
                 group_size=other._group_size,
             )
-        elif isinstance(other, QBytesTensor):
+        elif (
+            isinstance(other, QBytesTensor)
+            and other.ndim == 2
+            and other.axis != -1
+            and not (isinstance(input, QBytesTensor) and input.axis is not None)
+        ):
+            # The kernels expect weights with one scale per output feature (or a single one) and per-tensor activations:
+            # any other layout (scales along the contraction axis, per-axis inputs, 1D weights) goes to the generic path
             if isinstance(input, QBytesTensor):
                 # Evaluate the product of the scales in float32: it easily underflows in float16
                 output_scales = input._scale.to(torch.float32) * other._scale.to(torch.float32)
